@@ -239,12 +239,21 @@ func RawRequest(c net.Conn, raw string) RawResponse {
 	if _, err := io.WriteString(c, raw); err != nil {
 		return RawResponse{Closed: true}
 	}
+	if strings.HasPrefix(raw, "HEAD ") {
+		return readResponse(bufio.NewReader(c), true)
+	}
 	return ReadResponse(bufio.NewReader(c))
 }
 
 // ReadResponse reads one response from br.
-func ReadResponse(br *bufio.Reader) RawResponse {
-	resp, err := http.ReadResponse(br, nil)
+func ReadResponse(br *bufio.Reader) RawResponse { return readResponse(br, false) }
+
+func readResponse(br *bufio.Reader, head bool) RawResponse {
+	var req *http.Request
+	if head {
+		req = &http.Request{Method: "HEAD"}
+	}
+	resp, err := http.ReadResponse(br, req)
 	if err != nil {
 		var ne net.Error
 		if errors.As(err, &ne) && ne.Timeout() {
@@ -253,7 +262,7 @@ func ReadResponse(br *bufio.Reader) RawResponse {
 		return RawResponse{Closed: true}
 	}
 	out := RawResponse{Status: resp.StatusCode, Header: resp.Header}
-	if resp.StatusCode != 101 && (resp.ContentLength > 0 || resp.ContentLength == -1 && resp.StatusCode != 200) {
+	if !head && resp.StatusCode != 101 && (resp.ContentLength > 0 || resp.ContentLength == -1 && resp.StatusCode != 200) {
 		b, _ := io.ReadAll(io.LimitReader(resp.Body, 1<<20))
 		out.Body = b
 	}
